@@ -98,7 +98,10 @@ pub fn present(bytes: &[u8], root: &PublicKey) -> Value {
         let a = Biscuit::from(&bytes, root);
         let b = UnverifiedBiscuit::from(&bytes).and_then(|u| u.verify(root).map_err(biscuit_auth::error::Token::Format));
         let c = Biscuit::from_base64(base64::encode_config(&bytes, base64::URL_SAFE), root);
-        let mut o = json!({"accept": a.is_ok(), "accept_unverified_then_verify": b.is_ok(), "accept_base64": c.is_ok()});
+        // the lenient parser only relaxes parsing: verify() afterwards is the strict check
+        let d = UnverifiedBiscuit::unsafe_deprecated_deserialize(&bytes).and_then(|u| u.verify(root).map_err(biscuit_auth::error::Token::Format));
+        let mut o = json!({"accept": a.is_ok(), "accept_unverified_then_verify": b.is_ok(), "accept_base64": c.is_ok(),
+            "accept_deprecated_parse_then_verify": d.is_ok()});
         match &a {
             Ok(t) => {
                 o["ids"] = json!(t.revocation_identifiers().iter().map(hex::encode).collect::<Vec<_>>());
@@ -388,6 +391,16 @@ fn secrets_json(hs: &[&History], extra: &[&schema::Biscuit]) -> Value {
     Value::Array(v)
 }
 
+/// canonical encodings of ed25519 points of order 1, 2, 4, 4, 8, 8
+const SMALL_ORDER: [&str; 6] = [
+    "0100000000000000000000000000000000000000000000000000000000000000",
+    "ecffffffffffffffffffffffffffffffffffffffffffffffffffffffffffff7f",
+    "0000000000000000000000000000000000000000000000000000000000000000",
+    "0000000000000000000000000000000000000000000000000000000000000080",
+    "26e8958fc2b227b045c3f489f2ef98f0d5dfac05d3c63339b13802886d53fc05",
+    "c7176a703d4dd84fba3c0b760d10670f2a2053fa2c39ccc64ec7fd7792ac037a",
+];
+
 pub fn run(opts: &Opts) {
     let mut sink = Sink::new(opts, "chain");
     let mut stats: BTreeMap<String, u64> = BTreeMap::new();
@@ -441,6 +454,27 @@ pub fn run(opts: &Opts) {
                 "honest": honest_j, "subject": wire_json(&w), "secrets": secrets_json(&[&h, &h2], &[&w])});
             *stats.entry(format!("other-root/accept:{}", out["accept"])).or_insert(0) += 1;
             sink.put(&case, &out);
+            // presented under a root key of small order, with the one signature that needs no secret under such a
+            // key (R = a small-order point, s = 0): strict verification refuses the key itself
+            for (n, so) in SMALL_ORDER.iter().enumerate() {
+                let kb = hex::decode(so).unwrap();
+                let root = match PublicKey::from_bytes(&kb, Algorithm::Ed25519) {
+                    Ok(r) => r,
+                    Err(_) => continue,
+                };
+                for (m, rb) in [SMALL_ORDER[0], so].iter().enumerate() {
+                    let mut w2 = w.clone();
+                    let mut sig = hex::decode(rb).unwrap();
+                    sig.extend_from_slice(&[0u8; 32]);
+                    w2.authority.signature = sig;
+                    let bytes2 = encode(&w2);
+                    let out = present(&bytes2, &root);
+                    let case = json!({"op": "chain", "mutation": format!("small-order root key {n}, key-less authority signature {m}"), "stage": k, "history": h.ops,
+                        "root": pubkey_json(&root), "honest": honest_j, "subject": wire_json(&w2), "secrets": secrets_json(&[&h, &h2], &[&w2])});
+                    *stats.entry(format!("small-order-root/accept:{}", out["accept"])).or_insert(0) += 1;
+                    sink.put(&case, &out);
+                }
+            }
         }
         // structured mutations of the final stage and of one intermediate stage
         let picks: Vec<usize> = if h.stages.len() > 2 { vec![h.stages.len() - 1, h.stages.len() - 2] } else { vec![h.stages.len() - 1] };
@@ -557,6 +591,46 @@ pub fn third_party_cases(rng: &mut StdRng, h: &History, h2: &History) -> Vec<(Va
             "subject": subject, "genuine": {"resp": resp_j(&contents), "prev_sig": genuine_prev},
             "secrets": secrets_json(&[h, h2], &[&wire_from_json(&subject)])});
         res.push((case, out));
+    }
+    // the deprecated third-party format (signature version 0: the external signature covers the block and the
+    // previous *key* only), made with the genuine keys and appended where the response was made for
+    if let Some(schema::proof::Content::NextSecret(sk)) = &wa.proof.content {
+        let last = wa.blocks.last().unwrap_or(&wa.authority);
+        if let Ok(prev_pk) = PublicKey::from_proto(&last.next_key) {
+            if let Ok(sk) = PrivateKey::from_bytes(sk, prev_pk.algorithm().into()) {
+                let signer = KeyPair::from(&sk);
+                let next = KeyPair::new_with_rng(Algorithm::Ed25519, rng);
+                let le = |k: &PublicKey| (k.to_proto().algorithm as i32).to_le_bytes().to_vec();
+                let mut m = contents.payload.clone();
+                m.extend(le(&prev_pk));
+                m.extend(prev_pk.to_bytes());
+                if let Ok(es) = ext.sign(&m) {
+                    let es = es.to_bytes().to_vec();
+                    let mut m2 = contents.payload.clone();
+                    m2.extend(&es);
+                    m2.extend(le(&next.public()));
+                    m2.extend(next.public().to_bytes());
+                    if let Ok(bs) = signer.sign(&m2) {
+                        let mut w2 = wa.clone();
+                        w2.blocks.push(schema::SignedBlock {
+                            block: contents.payload.clone(),
+                            next_key: next.public().to_proto(),
+                            signature: bs.to_bytes().to_vec(),
+                            external_signature: Some(schema::ExternalSignature { signature: es, public_key: ext.public().to_proto() }),
+                            version: None,
+                        });
+                        w2.proof = schema::Proof { content: Some(schema::proof::Content::NextSecret(next.private().to_bytes().to_vec())) };
+                        let bytes = encode(&w2);
+                        let out = present(&bytes, &h.root.public());
+                        let case = json!({"op": "chain", "variant": "legacy", "mutation": "third-party block in the deprecated format (external signature over the previous key only) appended with the genuine keys",
+                            "stage": 0, "history": h.ops, "root": pubkey_json(&h.root.public()),
+                            "honest": [json!({"root": pubkey_json(&h.root.public()), "token": wire_json(&wa)})], "subject": wire_json(&w2),
+                            "secrets": secrets_json(&[h, h2], &[&w2])});
+                        res.push((case, out));
+                    }
+                }
+            }
+        }
     }
     res
 }
